@@ -2,6 +2,7 @@ import HmcVerif.Exec.C01
 import HmcVerif.Exec.C02
 import HmcVerif.Exec.C03
 import HmcVerif.Exec.C04
+import HmcVerif.Exec.C05
 import HmcVerif.Exec.C06
 import HmcVerif.Exec.C08
 import HmcVerif.Exec.C10
@@ -21,6 +22,9 @@ def dispatch (cmd : String) : Option (P String) :=
   | "c03.bfgs" => some C03.bfgs
   | "c04.hmc" => some C04.hmc
   | "c04.rwmh" => some C04.rwmh
+  | "c05.eval" => some C05.eval
+  | "c05.correct" => some C05.correct
+  | "c14.generate" => some C05.generate
   | "c06.misfit" => some C06.misfit
   | "c06.update" => some C06.update
   | "c08.fault" => some C08.fault
